@@ -1,5 +1,5 @@
 CONSTANTS P = 67  A = 0  B = 2  Gx = 2  Gy = 12  N = 73
-          ZSet = {1, 73, 74}  ZDeep = {73}
+          ZSet = {1, 73}  ZDeep = {73}
 SPECIFICATION Spec
 INVARIANT ECDSALemmas
 CHECK_DEADLOCK FALSE
